@@ -172,3 +172,18 @@ def jsonable(v):
     if isinstance(v, (set, frozenset)):
         return sorted((jsonable(x) for x in v), key=repr)
     return repr(v)
+
+
+def fresh(x):
+    """An object equal to x but (whenever the interpreter allows) not identical to it: what a caller who *names* an ID
+    passes, as opposed to one who iterates over the network's own views.  Small ints and interned strings stay shared."""
+    import pickle
+
+    try:
+        y = pickle.loads(pickle.dumps(x))
+    except Exception:  # noqa: BLE001
+        return x
+    if isinstance(x, str) and y is x:
+        y = "".join(list(x))
+    return y if y == x and hash(y) == hash(x) else x
+
